@@ -226,8 +226,8 @@ def _m_space_copy(eng, st, r, a, kw, e):
 
 def _m_space_update(eng, st, r, a, kw, e):
     o = eng.coerce(a[0], TSpace, st)
-    k = z3.Const(fresh_name("k"), Name)
-    return NONE, Val(TSpace, z3.Lambda([k], z3.If(indom(o.t, k), o.t[k], r.t[k])))
+    from . import theory as _T
+    return NONE, Val(TSpace, _T.union(r.t, o.t))
 
 
 def _m_list_append(eng, st, r, a, kw, e):
